@@ -11,6 +11,8 @@ import Sgz.Model.Container
 import Sgz.Model.HeaderReads
 import Sgz.Model.Version
 import Sgz.Model.Emul
+import Sgz.Model.Irregular
+import Sgz.Model.Xarray
 /-!
 # Tie/Source — the model's arithmetic is the arithmetic of the source as it is now
 
@@ -458,5 +460,48 @@ theorem subvolume_index (c0 c1 cl v : Int) (n k : Int) :
   unfold Gen.acc_step Gen.acc_stop_is_end Gen.acc_negative_index Gen.acc_is_negative
   refine ⟨rfl, ?_, rfl, Iff.rfl⟩
   simp
+
+/-! ### conversion_utils.py: NumPy, 2D and irregular producers; sgz_xarray.py -/
+
+/-- `numpy_producer`: plane sets, planes hashed, the slab taken from the input and its padding to a whole set -/
+theorem numpy_producer (g : Geo) (n b s : Nat) (hb : 0 < b) :
+    Gen.numpy_sets g.b0 g.P0 = g.NB0
+    ∧ Writer.toRead n b s = (if (s + 1) * b > n then Gen.numpy_planes b n else b)
+    ∧ (Gen.numpy_last_set b n s ↔ (s + 1) * b > n)
+    ∧ Gen.numpy_slab_lo b s = s * b ∧ Gen.numpy_slab_hi b s = (s + 1) * b
+    ∧ Gen.numpy_planes b n + Gen.numpy_pad_planes b n = b := by
+  unfold Gen.numpy_sets Gen.numpy_planes Gen.numpy_last_set Gen.numpy_slab_lo Gen.numpy_slab_hi Gen.numpy_pad_planes
+    Writer.toRead Geo.NB0
+  refine ⟨rfl, rfl, ?_, rfl, rfl, ?_⟩
+  · constructor <;> intro h <;> exact_mod_cast h
+  · have := Nat.mod_lt n hb; omega
+
+/-- `seismic_file_producer_2d` / `io_thread_func_2d` -/
+theorem line2d_producer (g : Geo) (n b s i : Nat) :
+    Gen.line2d_groups g.b1 g.P1 = g.NB1
+    ∧ Writer.toRead n b s = (if (s + 1) * b > n then Gen.line2d_traces b n else b)
+    ∧ (Gen.line2d_last_group b n s ↔ (s + 1) * b > n)
+    ∧ Gen.line2d_trace_id b i s = s * b + i := by
+  unfold Gen.line2d_groups Gen.line2d_traces Gen.line2d_last_group Gen.line2d_trace_id Writer.toRead Geo.NB1
+  refine ⟨rfl, rfl, ?_, rfl⟩
+  constructor <;> intro h <;> exact_mod_cast h
+
+/-- `unstructured_io_thread_func`: the inline number looked up for plane `i` of set `s`, and the header slot of the trace
+found there at crossline position `xlId` — the slot `Irregular.tStore` assigns to those line numbers -/
+theorem irregular_slots (minIl ilStep minXl xlStep : Int) (hil : 0 < ilStep) (hxl : 0 < xlStep) (nXl b0 s i xlId : Nat) :
+    Irregular.tStore minIl ilStep minXl xlStep nXl (Gen.irregular_inline_number b0 ilStep minIl i s)
+        (minXl + xlStep * (xlId : Int))
+      = (Gen.irregular_t_store b0 i nXl s xlId : Nat) := by
+  unfold Irregular.tStore Gen.irregular_inline_number Gen.irregular_t_store
+  have e1 : minXl + xlStep * (xlId : Int) - minXl = xlStep * (xlId : Int) := by omega
+  have e2 : ((s : Int) * (b0 : Int) + (i : Int)) * ilStep + minIl - minIl = ((s : Int) * (b0 : Int) + (i : Int)) * ilStep := by omega
+  rw [e1, e2, Int.mul_ediv_cancel_left _ (by omega), Int.mul_ediv_cancel _ (by omega)]
+  push_cast
+  rfl
+
+/-- `sgz_xarray`: an integer key -/
+theorem xarray_int_key (k : Int) (n : Nat) :
+    Xarray.axisPlan (.idx k) n = some (Gen.xarray_int_key k n, Gen.xarray_int_key k n + 1, none) := by
+  unfold Xarray.axisPlan Gen.xarray_int_key; rfl
 
 end Sgz.Tie
